@@ -148,6 +148,17 @@ static bool op1(const std::string& w, Ctx1& cx, const std::vector<double>& xa, v
 		o.f(lmin(a, b));
 		o.f(lmax(a, b));
 	}
+	else if(w == "C")	// operator() next to Interpolate
+	{
+		double x = r.num();
+		o.f(cx.cur()(x));
+		o.f(f(x));
+	}
+	else if(w == "O")	// the public member domain, every element of it
+	{
+		for(double v : cx.cur().domain)
+			o.f(v);
+	}
 	else if(w == "U")
 	{
 		double a = r.num(), x = r.num(), d = r.num();
@@ -199,6 +210,18 @@ static bool op2(const std::string& w, Ctx2& cx, const std::vector<double>& xa, c
 	{
 		double x = r.num(), y = r.num();
 		o.f(cx.cur().Interpolate(x, y));
+	}
+	else if(w == "C")	// operator() next to Interpolate
+	{
+		double x = r.num(), y = r.num();
+		o.f(cx.cur()(x, y));
+		o.f(cx.cur().Interpolate(x, y));
+	}
+	else if(w == "O")	// the public member domain, every element of it
+	{
+		for(const auto& row : cx.cur().domain)
+			for(double v : row)
+				o.f(v);
 	}
 	else if(w == "g")
 		o.f(cx.cur().Global_Minimum());
